@@ -323,5 +323,26 @@ func caseOf(prop, kind string, in []byte, err error) *core.Case {
 	if ce, ok := err.(*caseErr); ok {
 		return ce.c
 	}
-	return &core.Case{Prop: prop, Kind: kind, In: append([]byte(nil), in...)}
+	c := &core.Case{Prop: prop, Kind: kind, In: append([]byte(nil), in...)}
+	// what lies behind the slice within its capacity is part of the case: a callee that reads
+	// past len(data) sees it (inputs are often windows of larger buffers)
+	if spare := cap(in) - len(in); spare > 0 {
+		if spare > 32 {
+			spare = 32
+		}
+		c.Bufs = []core.HexBytes{append([]byte(nil), in[len(in):len(in)+spare]...)}
+	}
+	return c
+}
+
+// inputOf rebuilds the input slice of a byte-level case, including the bytes that lay behind
+// it within its capacity when the case was recorded.
+func inputOf(c *core.Case) []byte {
+	if len(c.Bufs) > 0 && len(c.Bufs[0]) > 0 {
+		full := append(append(make([]byte, 0, len(c.In)+len(c.Bufs[0])), c.In...), c.Bufs[0]...)
+		return full[:len(c.In)]
+	}
+	out := make([]byte, len(c.In))
+	copy(out, c.In)
+	return out
 }
